@@ -128,5 +128,10 @@ func commitKind(c *proto.Case) interface{} {
 	} else {
 		out["from_own_reveal"] = nil
 	}
+	// the same key material under another nonce is another key
+	twin := k
+	twin.Nonce, _ = c.Body["twin_nonce"].(string)
+	out["twin_commitment"] = opt(commitment.GetCommitment(&twin, code))
+	out["twin_reveal"] = opt(commitment.GetRevealValue(&twin, code))
 	return out
 }
